@@ -251,7 +251,7 @@ def expand(tpl_path, canary=False, only_props=None):
         if s.startswith('//@fn') or s.startswith('//@item'):
             is_fn = s.startswith('//@fn')
             opts = parse_kv(s[5:] if is_fn else s[7:])
-            header_lines, spec_lines = [], []
+            header_lines, spec_lines, loop_lines = [], [], []
             i += 1
             sect = None
             while True:
@@ -265,6 +265,8 @@ def expand(tpl_path, canary=False, only_props=None):
                     sect = header_lines
                 elif t == '//@spec':
                     sect = spec_lines
+                elif t == '//@loop':
+                    sect = loop_lines
                 else:
                     if sect is None:
                         raise ValueError('%s:%d: text outside //@header or //@spec' % (tpl_path, i + 1))
@@ -282,7 +284,7 @@ def expand(tpl_path, canary=False, only_props=None):
             u.sha256 = hashlib.sha256(it.text.encode()).hexdigest()
             first = cur_line()
             if is_fn:
-                text = emit_fn(u, it, opts, header_lines, spec_lines, canary, recursor_file)
+                text = emit_fn(u, it, opts, header_lines, spec_lines, canary, recursor_file, loop_lines)
             else:
                 text = emit_item(u, it, opts)
             out.append(text)
@@ -319,7 +321,7 @@ def emit_item(u, it, opts):
     return (attrs + '\n' if attrs else '') + (vis + ' ' if vis else '') + text
 
 
-def emit_fn(u, it, opts, header_lines, spec_lines, canary, recursor_file):
+def emit_fn(u, it, opts, header_lines, spec_lines, canary, recursor_file, loop_lines=()):
     counts = {}
     header = it.header
     body = it.body
@@ -338,6 +340,10 @@ def emit_fn(u, it, opts, header_lines, spec_lines, canary, recursor_file):
         body, _ = X.rename_ident(body, name, new)
         counts['R9'] = counts.get('R9', 0) + 1
         name = new
+    if opts.get('name'):
+        # the unit's name is the one in the replacement //@header; the body is left alone (used by the __mt twins, whose
+        # bodies call the single-threaded function of the same name)
+        name = opts['name']
     if opts.get('selfcall'):
         for pair in opts['selfcall'].split(','):
             a, _, b = pair.partition('>')
@@ -359,12 +365,48 @@ def emit_fn(u, it, opts, header_lines, spec_lines, canary, recursor_file):
                 raise X.AnchorLost('%s: subst_text pattern %r not found in %s' % (u.file, a, name))
             body = body.replace(a, b)
             counts['R10'] = counts.get('R10', 0) + n0
+    if opts.get('loopbody') is not None:
+        # R16: the body of the k-th `for` loop is outlined verbatim into a function with the header given in the template
+        loops = X.for_loops(body)
+        k = int(opts['loopbody'])
+        if k >= len(loops):
+            raise X.AnchorLost('%s: %s has only %d for-loops (loopbody=%d)' % (u.file, name, len(loops), k))
+        pat, it_expr, lb = loops[k]
+        if opts.get('looppat') and opts['looppat'].replace('~', ' ') != pat:
+            raise X.AnchorLost('%s: %s loop #%d pattern is %r, contract expects %r' % (u.file, name, k, pat, opts['looppat'].replace('~', ' ')))
+        tail = opts.get('tail', '').replace('~', ' ')
+        body = '{\n' + lb[1:-1] + '\n' + tail + '\n}'
+        counts['R16'] = counts.get('R16', 0) + 1
+        if not header_lines:
+            raise ValueError('loopbody needs a //@header')
+    if opts.get('closure') is not None:
+        # R19: the body of the k-th closure literal is outlined verbatim into a function with the header given in the template
+        cl = X.closures(body)
+        k = int(opts['closure'])
+        if k >= len(cl):
+            raise X.AnchorLost('%s: %s has only %d closures (closure=%d)' % (u.file, name, len(cl), k))
+        cpar, cbody = cl[k]
+        if opts.get('cparams') and opts['cparams'].replace('~', ' ') != cpar:
+            raise X.AnchorLost('%s: %s closure #%d has parameters %r, contract expects %r' % (u.file, name, k, cpar, opts['cparams'].replace('~', ' ')))
+        body = cbody
+        counts['R19'] = counts.get('R19', 0) + 1
+        if not header_lines:
+            raise ValueError('closure needs a //@header')
+    if opts.get('forinv') is not None:
+        # R17: for -> loop with the invariant from the //@loop section; R18 first (a `use` may sit inside the loop body)
+        body, c18 = X.r18_body_use(body)
+        if c18:
+            counts['R18'] = c18
+        body, c17 = X.r17_for_to_loop(body, int(opts['forinv']), '/*@@LOOPSPEC@@*/')
+        counts['R17'] = c17
     ret = opts.get('ret', 'res')
     if header_lines:
         # R10: replacement header; check parameter names agree with the real one
         new_header = '\n'.join(header_lines)
         real = params_of(header)
         mine = params_of(new_header)
+        if opts.get('loopbody') is not None or opts.get('closure') is not None:
+            real = mine  # the outlined loop body has its own header; drift is caught by looppat
         if opts.get('withmgr'):
             # R15: `&self` becomes (manager, <this>): compare the remaining parameters only
             real = [x for x in real if x not in ('self', '&self')]
@@ -378,6 +420,8 @@ def emit_fn(u, it, opts, header_lines, spec_lines, canary, recursor_file):
         header, c1 = X.r1_strip_attrs(header)
         header, had = X.name_return(header, ret)
     body = apply_rules(body, opts, counts, recursor_file)
+    if opts.get('forinv') is not None:
+        body = body.replace('/*@@LOOPSPEC@@*/', '\n'.join(loop_lines))  # spliced after R1 so that #[trigger] survives
     if opts.get('expect'):
         for pair in opts['expect'].split(','):
             r, _, n = pair.partition(':')
@@ -391,6 +435,8 @@ def emit_fn(u, it, opts, header_lines, spec_lines, canary, recursor_file):
     attrs = ''
     if 'nodecr' in opts:
         attrs += '#[verifier::exec_allows_no_decreases_clause]\n'
+    if 'noisolation' in opts:
+        attrs += '#[verifier::loop_isolation(false)]\n'
     if opts.get('rlimit'):
         attrs += '#[verifier::rlimit(%s)]\n' % opts['rlimit']
     if opts.get('spinoff'):
